@@ -299,3 +299,69 @@ package yang
 //@   ensures  result != nil ==> e.last == old(e.last) && (forall n string :: has(e.ToInt, n) == old(has(e.ToInt, n)) && e.ToInt[n] == old(e.ToInt[n]))
 //@   modifies e.last, contents(e.ToInt), contents(e.ToString)
 //@   safe
+
+// ---------------------------------------------------------------------------
+// C12: config inheritance and namespace attribution.
+//
+// ro is the statement of the property, literally: read-only iff the nearest
+// node on the path (itself included) with an explicit config statement says
+// false, or the node lies in an rpc/action output.
+//@ spec ro(e *Entry) bool = e == nil ? false : (e.Kind == OutputEntry ? true : (e.Config == TSUnset ? ro(e.Parent) : e.Config == TSFalse))
+//
+// Tree assumptions established by the (unverified, reflection-driven) builder:
+// every TriState field holds one of its three values, and parents are acyclic
+// (a rank decreases along Parent).
+//@ abstract rank(e *Entry) int
+//@ pred triOK(e *Entry) = e == nil || e.Config == TSUnset || e.Config == TSTrue || e.Config == TSFalse
+//@ pred ranked(e *Entry) = e == nil || (0 <= rank(e) && (e.Parent == nil || rank(e.Parent) < rank(e)))
+//
+//@ func (*Entry).ReadOnly props C12 C19
+//@   requires forall x *Entry :: triOK(x) && ranked(x)
+//@   ensures  result == ro(e)
+//@   decreases e == nil ? 0 : rank(e) + 1
+//@   pure
+//@   safe
+//
+// AST assumptions (the AST is built by reflection-driven code that is not
+// verified): a node's parent is a function of the node (nodes are immutable
+// after build) and parents are acyclic.
+//@ abstract nodeParent(n Node) Node
+//@ abstract nrank(n Node) int
+//@ func (Node).ParentNode
+//@   trusted
+//@   requires recv != nil
+//@   ensures  result == nodeParent(recv)
+//@   ensures  result != nil ==> 0 <= nrank(result) && nrank(result) < nrank(recv)
+//@   pure
+//
+//@ spec rootUp(n Node) Node = nodeParent(n) == nil ? n : rootUp(nodeParent(n))
+//@ spec rootOf(n Node) *Module = typeis(rootUp(n), *Module) ? asptr(rootUp(n), *Module) : nil
+//
+//@ func RootNode props C12 C17 C09
+//@   requires n != nil
+//@   ensures  result == rootOf(n)
+//@   pure
+//@   safe
+//@   loop 1
+//@     invariant n != nil && rootUp(n) == rootUp(n0)
+//@     decreases nrank(n)
+//
+// The namespace of an entry: the nearest stamp on the way up (a node grafted
+// by an augment carries the augmenting module's namespace), else the namespace
+// of the module whose tree the walk ends in -- for a submodule, its owner's.
+//@ spec nsAnchor(e *Entry) *Entry = e.Parent == nil ? e : (e.namespace != nil ? e : nsAnchor(e.Parent))
+//@ spec nsOwner(m *Module) *Module = m.BelongsTo != nil ? m.Modules.Modules[m.BelongsTo.Name] : m
+//
+//@ func (*Entry).Namespace props C12 C19
+//@   requires e != nil && (forall x *Entry :: ranked(x))
+//@   requires forall x *Entry :: x != nil && x.Node != nil && rootOf(x.Node) != nil ==> rootOf(x.Node).Modules != nil && (rootOf(x.Node).BelongsTo != nil ==> true)
+//@   ensures  nsAnchor(e).Parent != nil ==> result == nsAnchor(e).namespace
+//@   ensures  nsAnchor(e).Parent == nil && nsAnchor(e).Node != nil && rootOf(nsAnchor(e).Node) != nil && nsOwner(rootOf(nsAnchor(e).Node)) != nil
+//@            ==> result == nsOwner(rootOf(nsAnchor(e).Node)).Namespace
+//@   ensures  nsAnchor(e).Parent == nil && (nsAnchor(e).Node == nil || rootOf(nsAnchor(e).Node) == nil || nsOwner(rootOf(nsAnchor(e).Node)) == nil)
+//@            ==> fresh(result) && result.Name == ""
+//@   modifies nothing
+//@   safe
+//@   loop 1
+//@     invariant e != nil && nsAnchor(e) == nsAnchor(e0)
+//@     decreases rank(e)
